@@ -315,7 +315,7 @@ async def idle_consumer_scenario(loop, case, out, stats, fps):
     rnd = random.Random(case["seed"])
     for kind in ("mem", "redis", "rabbit"):
         for waited in (0.35, 0.8, 1.7):
-            for over in (0.05, 0.3, -0.5):  # expired that long ago / (negative) that much time left
+            for over in (0.05, 0.3, -5.0):  # expired that long ago / (negative) that much time left (more than any polling delay)
                 rig = Rig(kind, loop, latency=None, seed=case["seed"])
                 try:
                     conn = rig.make_connection("p1")
